@@ -114,6 +114,9 @@ fn main() {
             }
         }
     }
+    if prop == "C02" {
+        watch::abort_is_violation(prop);
+    }
     let ctx = Ctx { tier, replay };
     let level = checks::level_of(prop);
     let mut rep = Report::new(prop, tier, level);
